@@ -3,7 +3,7 @@
 seeds=${1:-"1 2 3"}; tier=${2:-quick}; shift 2
 props=${@:-$(python3 -c "import json;print(' '.join(c['property_id'] for c in json.load(open('/verif/MANIFEST.json'))['checks']))")}
 cd /verif
-for s in $seeds; do for p in $props; do
+for s in $seeds; do [ "$s" != "0" ] && export VERIF_EVIDENCE_DIR=/verif/.scratch/evidence-sweep; for p in $props; do
   out=$(VERIF_SEED=$s ./check $p --tier $tier 2>&1 | grep -E "VIOLATION|INFRASTRUCTURE|obligations" | cut -c1-200 | tr '\n' ' ')
   echo "seed=$s $p rc=$? :: $out"
 done; done
